@@ -89,7 +89,8 @@ def run_case(part, case, prange=None):
             part.count("evaluations")
             if nat != want_nat:
                 part.violation(key + ":encoding-choice", case, {"native_operators": nat, "expected": want_nat})
-        for pattern in gcheck.patterns(n, prange):
+        pats = [tuple(bool(b) for b in pt) for pt in case["patterns"]] if "patterns" in case else gcheck.patterns(n, prange)
+        for pattern in pats:
             exp = oracle(n, edges, pattern, case["acyclic"])
             if per_pattern:
                 try:
@@ -109,7 +110,31 @@ def run_case(part, case, prange=None):
             else:
                 fixes = callers(pattern) if callers else []
                 gcheck.judge(part, key, case, pattern, exp, s, fixes)
-    part.add("graphs", (n, tuple(map(tuple, edges))))
+    if "patterns" in case:
+        part.add("scale", (case["form"], tuple(case.get("shape", [n])), case["acyclic"]))
+    else:
+        part.add("graphs", (n, tuple(map(tuple, edges))))
+
+
+def scale_patterns(h, w):
+    """Deep shapes on a larger board: the longest corridors the board admits and their one-cell perturbations."""
+    def flat(cells):
+        cs = set(cells)
+        return [(y, x) in cs for y in range(h) for x in range(w)]
+
+    order = graphref.serpentine_order(h, w)
+    pats = [flat(order), flat(order[: len(order) // 2] + order[len(order) // 2 + 1 :]), flat([(y, x) for y in range(h) for x in range(w)]), flat([]), flat([order[0]]),
+            flat([order[0], order[-1]]), flat(order[1:]), flat(order[:-1])]
+    if h >= 3 and w >= 2:
+        pats.append(flat(order + [(1, 0)]))  # closes a cycle between the first two corridors
+    bo = graphref.boustrophedon(h, w)
+    pats.append(flat(bo[: (len(bo) * 2) // 3]))
+    pats.append(flat(bo[::2]))
+    uniq = []
+    for p_ in pats:
+        if p_ not in uniq:
+            uniq.append(p_)
+    return uniq
 
 
 def cases_for(tier):
@@ -150,6 +175,14 @@ def cases_for(tier):
                 if h * w > 9 and (ugp, cfg) != (False, False):
                     continue
                 out.append({"form": "grid", "n": h * w, "shape": [h, w], "acyclic": acyclic, "ugp": ugp, "cfg": cfg})
+    # scale family (deterministic, not exhaustive): boards too large for all 2^n patterns
+    big = [(5, 5), (4, 6), (6, 4), (1, 16), (16, 1), (3, 7)] if tier == "quick" else [(5, 5), (4, 6), (6, 4), (6, 6), (3, 9), (9, 3), (1, 24), (24, 1), (7, 7), (5, 8)]
+    for h, w in big:
+        for acyclic in (False, True):
+            for ugp in (False, True):
+                out.append({"form": "grid", "n": h * w, "shape": [h, w], "acyclic": acyclic, "ugp": ugp, "cfg": False, "patterns": scale_patterns(h, w)})
+            out.append({"form": "vars", "n": h * w, "edges": graphref.orient(graphref.grid_edges(h, w), 3), "acyclic": acyclic, "ugp": False, "cfg": False,
+                        "shape": [h, w], "patterns": scale_patterns(h, w)})
     return out
 
 
@@ -171,6 +204,8 @@ def worker(shard, part):
 
 
 def cost(case):
+    if "patterns" in case:
+        return 40 * len(case["patterns"])
     c = 1 << case["n"]
     if case["form"] == "eq":
         c *= 1 << case["n"]
@@ -203,10 +238,11 @@ def main(tier, seed, only=None):
         "5 selected 6-vertex graphs, all grid shapes with <= %d cells (BoolArray2D form); all 2^n activity patterns; is_active as "
         "variables / BoolArray1D / negated variables / Python constants / mixed variable-constant lists / x==y over two vectors "
         "(all 4^n underlying assignments, n<=3); acyclic off/on; use_graph_primitive False / True / None with the config flag off/on. "
-        "Each (case, pattern) is one find_answer through cspuz's z3 backend (native-aware harness backend when the program "
+        "Scale family (not exhaustive): on boards up to %s the serpentine corridor, its one-cell perturbations, the full board, a closed cycle, "
+        "boustrophedon prefixes and sparse sets.  Each (case, pattern) is one find_answer through cspuz's z3 backend (native-aware harness backend when the program "
         "contains the native operator).  Oracle: induced subgraph connected (tree when acyclic), empty set admitted.  "
         "Non-trivial = distinct (graph, pattern) pairs; both admitted and rejected patterns are counted in outcomes."
-        % (4 if tier == "quick" else 5, 8 if tier == "quick" else 12),
+        % (4 if tier == "quick" else 5, 8 if tier == "quick" else 12, "5x5 / 4x6 / 1x16" if tier == "quick" else "7x7 / 5x8 / 1x24"),
     )
     run.assumptions = [
         "implementation under test = cspuz encoding + cspuz z3 backend (C01 establishes the backend on this fragment)",
